@@ -521,6 +521,9 @@ pub fn register(m: &mut HashMap<&'static str, OpFn>) {
                 tb(again.map(|g| g == k).unwrap_or(false)),
                 hex(&k.to_bytes()),
                 hex(k.as_ref()),
+                // the key as a curve point, through both conversions
+                ed_hex_checked(&k.to_edwards()),
+                ed_hex_checked(&EdwardsPoint::from(k)),
             ]
         }
         None => vec!["err".into()],
